@@ -260,6 +260,8 @@ func runCard(dir string, emit func(interface{}), conc *xmlt.Conc, mod, rem int) 
 		}
 		emit(cev)
 	})
+	mgSelf := &carddav.AddressBookMultiGet{DataRequest: carddav.AddressDataRequest{AllProp: true}}
+	selfTwice(func(p string) error { _, err := cl.MultiGetAddressBook(context.Background(), p, mgSelf); return err }, ch, "/u/card/ab/", "/u/card/other one/", emit)
 	n = 0
 	readCases(dir+"/invalid.ndjson", func(b []byte) {
 		n++
